@@ -623,105 +623,118 @@ def exit_fingerprint(f, fl, b):
 
 
 def check_run(rep, rn):
-    g = CFG(rn)
-    idx = make_idx_class(rn)
-    calls = [n for n in rn.walk() if n.get("k") == "mcall"]
-    starts = [n for n in calls if n.get("callee") == "votca::tools::Thread::Start" and unwrap(n["obj"]).get("k") == "opcall"]
-    waits = [n for n in calls if n.get("callee") == "votca::tools::Thread::WaitDone" and unwrap(n["obj"]).get("k") == "opcall"]
-    locks = [(n, mutex_of(n, rn, idx)) for n in calls if n.get("callee") == MUTEX + "Lock"]
-    unlocks = [(n, mutex_of(n, rn, idx)) for n in calls if n.get("callee") == MUTEX + "Unlock"]
-    pushes = [n for n in calls if (n.get("callee") or "").endswith("::push_back") and unwrap(n["obj"]).get("field") in (APP + "threadsMutexesIn_", APP + "threadsMutexesOut_")]
-    rep.floor("R5.4", len(starts), 1, "worker Start calls")
-    rep.floor("R5.4", len(waits), 1, "worker WaitDone calls")
-    rep.floor("R5.4", len(pushes), 2, "ring mutex creations")
+    """start-up / join ordering of CsgApplication::Run, decided on the folded sequence of ring, thread and merge operations per mode"""
+    from vsa.cases import executes_rel
+    RX = r"tools::Mutex::(Lock|Unlock)$|tools::Thread::(Start|WaitDone)$|::push_back$|CsgApplication::(MergeWorker|EndEvaluate)$|TrajectoryReader::Close$"
+    fo = Fold(rn, inline="internal", record_calls=RX).run()
+    conds = getattr(fo, "conds", {})
+    rel = lambda c: "SynchronizeThreads(" in str(c) or "DoThreaded(" in str(c)
 
-    def blk(n):
-        return g.where[n["id"]][0]
-
-    def precedes(a, b):
-        """a before b on every path that contains both: a is not reachable from b (different blocks) or earlier in the same block"""
-        if blk(a) == blk(b):
-            return g.where[a["id"]][1] < g.where[b["id"]][1]
-        return blk(a) not in g.reaches([blk(b)])
-
-    def under_sync(n, want=True):
-        """the innermost SynchronizeThreads() guard of n has the wanted polarity"""
-        for a in rn.ancestors(n):
-            if a.get("k") == "if":
-                c = unwrap(a["cond"])
-                pol = True
-                while c.get("k") == "unop" and c["op"] == "!":
-                    c = unwrap(c["sub"])
-                    pol = not pol
-                if is_sync(c):
-                    in_then = any(x.get("id") == n["id"] for x in walk(a["then"]))
-                    return (pol if in_then else not pol) == want
+    def orc(lf):
+        s_ = str(lf)
+        if s_.startswith("SynchronizeThreads("):
+            return ("SY", True)
+        if s_.startswith("DoThreaded("):
+            return ("TH", True)
         return None
-    for ring in ("In", "Out"):
-        push = [p for p in pushes if unwrap(p["obj"])["field"].endswith(ring + "_")]
-        lock_back = [n for n, m in locks if m == (ring, "back")]
-        ok = len(push) == 1 and len(lock_back) == 1
-        if ok:
-            p, l = push[0], lock_back[0]
-            ok = g.dominates(p["id"], l["id"]) and under_sync(p) is True and under_sync(l) is True
-            ok = ok and "make_unique" in show(p["args"][0])
-            # same loop as the creation, loop over all workers
-            loops = [a for a in rn.ancestors(l) if a.get("k") in ("for", "rangefor")]
-            ok = ok and bool(loops) and "myWorkers_" in show(loops[0].get("cond") or loops[0].get("range"))
-            for s in starts:
-                ok = ok and precedes(l, s) and blk(l) != blk(s)
-        rep.check(ok, "R5.4", "prelock|" + ring, "%s ring: one mutex per worker created and locked before any Start" % ring,
-                  "the %s ring mutexes are not all created and locked (one per worker, under SynchronizeThreads()) before the first "
-                  "worker thread starts: a worker can run through an unlocked ring and read/merge out of order" % ring,
-                  rn.loc(lock_back[0] if lock_back else None), sample=True)
-        rel = [n for n, m in unlocks if m == (ring, "zero")]
-        ok = len(rel) == 1 and under_sync(rel[0]) is True and all(precedes(s, rel[0]) for s in starts)
-        others = [m for n, m in unlocks if isinstance(m, tuple) and m[0] == ring and m[1] != "zero"]
-        ok = ok and not others
-        rep.check(ok, "R5.4", "release-first|" + ring, "%s[0] released once, after all workers are started" % ring,
-                  "start-up does not release exactly %s[0] after the last Start (found %s)" % (ring, [m for n, m in unlocks if isinstance(m, tuple) and m[0] == ring]),
-                  rn.loc(rel[0] if rel else None), sample=True)
-    # join + unordered merge
-    merges = [n for n in calls if n.get("callee") == APP + "MergeWorker"]
-    rep.floor("R5.4", len(merges), 1, "post-join MergeWorker calls in Run")
-    for m in merges:
-        ok = under_sync(m, want=False) is True
-        w = [x for x in waits if g.dominates(x["id"], m["id"])]
-        ok = ok and bool(w)
-        if ok:
-            # same worker object
-            ok = root_name(w[0]["obj"]) == root_name(m["args"][0])
 
-        def cls(n):
-            if n.get("k") == "mcall" and n.get("callee") in (MUTEX + "Lock", MUTEX + "Unlock"):
-                mm = mutex_of(n, rn, idx)
-                if isinstance(mm, str) and mm.startswith("local:"):
-                    return ("inc", mm) if n["callee"] == MUTEX + "Lock" else ("dec", mm)
+    def kind(e):
+        cal, obj = e["callee"], str(e["obj"])
+        short = cal.split("::")[-1]
+        if short == "push_back":
+            for ring in ("In", "Out"):
+                if "threadsMutexes%s_" % ring in obj:
+                    return "%s.create" % ring if "make_unique" in str(e["args"][0]) else "%s.push-other" % ring
             return None
-        fl = CounterFlow(rn, cls, assume=lambda c: False if is_sync(c) else None, cut_back_edges=True).run()
-        st = fl.state_before(m) if fl.reached(m) else None
-        held = [k for k, v in (st or {}).items() if v == 1]
-        ok = ok and st is not None and len(held) == 1
-        leak = [k for b, s in fl.exit_states + fl.back_states for k, v in s.items() if v != 0]
-        ok = ok and not leak
-        rep.check(ok, "R5.4", "post-join-merge", "unordered mode: MergeWorker(worker) after that worker's WaitDone, under mergeMutex",
-                  "the post-join merge is not (only in unordered mode) after WaitDone of the same worker and bracketed by a "
-                  "merge mutex (held: %s, leaked: %s)" % (held, leak), rn.loc(m), sample=True)
-    # every started worker is joined: both loops iterate the same container
-    for s in starts:
-        ls = [a for a in rn.ancestors(s) if a.get("k") == "rangefor"]
-        rep.check(bool(ls) and show(ls[0]["range"]) == "myWorkers_", "R5.4", "start-all", "Start for every element of myWorkers_",
-                  "workers are not started by a loop over myWorkers_", rn.loc(s))
-    for w in waits:
-        ls = [a for a in rn.ancestors(w) if a.get("k") == "rangefor"]
-        rep.check(bool(ls) and show(ls[0]["range"]) == "myWorkers_" and all(precedes(s, w) for s in starts), "R5.4", "join-all",
-                  "WaitDone for every element of myWorkers_ after all Starts", "workers are not all joined after being started", rn.loc(w))
-    # reader closed / EndEvaluate only after the join
-    ends = [n for n in calls if n.get("callee") in (APP + "EndEvaluate", C + "TrajectoryReader::Close")]
-    for e in ends:
-        if any(blk(e) in g.reaches([blk(w)]) for w in waits):
-            rep.check(all(precedes(w, e) for w in waits), "R5.4", "after-join|" + e["callee"].split("::")[-1],
-                      "%s after the join loop" % e["callee"].split("::")[-1], "%s can run before all workers are joined" % e["callee"], rn.loc(e))
+        if cal.endswith("Mutex::Lock") or cal.endswith("Mutex::Unlock"):
+            op = "lock" if cal.endswith("::Lock") else "unlock"
+            for ring in ("In", "Out"):
+                if "threadsMutexes%s_" % ring in obj:
+                    if re.search(r"back\(threadsMutexes%s_\)" % ring, obj):
+                        return "%s.back.%s" % (ring, op)
+                    if re.search(r"front\(threadsMutexes%s_\)|at\(threadsMutexes%s_, 0\)" % (ring, ring), obj):
+                        return "%s.first.%s" % (ring, op)
+                    return "%s.other.%s" % (ring, op)
+            if "traj_readerMutex_" in obj:
+                return "reader." + op
+            return "local." + op
+        return short
+    evs = [e for e in fo.events if e["kind"] == "call" and kind(e) is not None]
+    rep.floor("R5.4", len([e for e in evs if kind(e) == "Start"]), 1, "worker Start calls")
+    rep.floor("R5.4", len([e for e in evs if kind(e) == "WaitDone"]), 1, "worker WaitDone calls")
+    rep.floor("R5.4", len([e for e in evs if kind(e).endswith(".create")]), 2, "ring mutex creations")
+    loops = {l["lid"]: l for l in getattr(fo, "loops", [])}
+
+    def lid_of(e):
+        ls = [g_[0][1] for g_ in e["guards"] if isinstance(g_[0], tuple) and g_[0] and g_[0][0] == "loop"]
+        return ls[-1] if ls else None
+
+    def over_workers(lid):
+        l = loops.get(lid)
+        if l is None:
+            return False
+        if l.get("range") is not None:
+            return str(l["range"]) == "myWorkers_"
+        return "size(myWorkers_)" in str(l.get("cond"))
+    res = {}
+    for sy in (True, False):
+        A = {"SY": sy, "TH": True}
+        tr = []
+        for e in evs:
+            x = executes_rel(e, A, orc, rel, conds)
+            if x is None:
+                raise AnalysisBroken("CsgApplication::Run: cannot decide whether %s happens in %s mode" % (kind(e), "ordered" if sy else "unordered"))
+            if x:
+                tr.append(e)
+        res[sy] = tr
+    # ---- ordered mode
+    tr = res[True]
+    ks = [kind(e) for e in tr]
+    pos = lambda k_: [i for i, x in enumerate(ks) if x == k_]
+    starts, waits = pos("Start"), pos("WaitDone")
+    for ring in ("In", "Out"):
+        cr, lk = pos(ring + ".create"), pos(ring + ".back.lock")
+        ok = len(cr) == 1 and len(lk) == 1 and cr[0] < lk[0] and bool(starts) and lk[0] < starts[0] and lid_of(tr[cr[0]]) == lid_of(tr[lk[0]]) and over_workers(lid_of(tr[lk[0]])) \
+            and lid_of(tr[lk[0]]) != lid_of(tr[starts[0]])
+        rep.check(ok, "R5.4", "prelock|" + ring, "%s ring: one mutex per worker created and locked before any Start" % ring,
+                  "the %s ring mutexes are not all created and locked (one per worker, in ordered mode) before the first worker thread starts (operations: %s): a worker can run "
+                  "through an unlocked ring and read/merge out of order" % (ring, ks), rn.loc(tr[lk[0]]["node"] if lk else None), sample=True)
+        rel_ = pos(ring + ".first.unlock")
+        others = [x for x in ks if x.startswith(ring + ".") and x not in (ring + ".create", ring + ".back.lock", ring + ".first.unlock")]
+        ok = len(rel_) == 1 and bool(starts) and rel_[0] > starts[-1] and lid_of(tr[rel_[0]]) is None and not others and (not waits or rel_[0] < waits[0])
+        rep.check(ok, "R5.4", "release-first|" + ring, "%s[0] released once, after all workers are started" % ring,
+                  "start-up does not release exactly %s[0] after the last Start and before the join (ring operations %s)" % (ring, [x for x in ks if x.startswith(ring + ".")]),
+                  rn.loc(tr[rel_[0]]["node"] if rel_ else None), sample=True)
+    rep.check("MergeWorker" not in ks, "R5.4", "ordered|no-post-join-merge", "ordered mode: the workers merge themselves, Run does not merge after the join",
+              "ordered mode: Run merges a worker after the join although the worker already merged in frame order (results counted twice)", rn.loc())
+    # ---- unordered mode
+    tru = res[False]
+    ku = [kind(e) for e in tru]
+    posu = lambda k_: [i for i, x in enumerate(ku) if x == k_]
+    ringops = [x for x in ku if x.startswith(("In.", "Out."))]
+    rep.check(not ringops, "R5.4", "unordered|no-ring", "unordered mode: no ring mutex is created or touched", "unordered mode: Run touches the ring mutexes (%s)" % ringops, rn.loc())
+    mw, wd = posu("MergeWorker"), posu("WaitDone")
+    ok, why = len(mw) == 1 and len(wd) == 1, "MergeWorker calls %d, WaitDone calls %d" % (len(mw), len(wd))
+    if ok:
+        m_, w_ = tru[mw[0]], tru[wd[0]]
+        lm = lid_of(m_)
+        lvar = str(loops[lm]["var"]) if lm in loops and loops[lm].get("var") is not None else None
+        seq = ku[wd[0]:mw[0] + 2]
+        ok = lm is not None and lm == lid_of(w_) and over_workers(lm) and seq == ["WaitDone", "local.lock", "MergeWorker", "local.unlock"] and lvar is not None \
+            and lvar in str(w_["obj"]) and lvar in str(m_["args"][0]) and str(tru[mw[0] - 1]["obj"]) == str(tru[mw[0] + 1]["obj"])
+        why = "join/merge sequence inside the loop is %s" % seq
+    rep.check(ok, "R5.4", "post-join-merge", "unordered mode: MergeWorker(worker) after that worker's WaitDone, under mergeMutex",
+              "the post-join merge is not (only in unordered mode) after WaitDone of the same worker and bracketed by a merge mutex: %s" % why, rn.loc(tru[mw[0]]["node"] if mw else None), sample=True)
+    for sy, t_, k_ in ((True, tr, ks), (False, tru, ku)):
+        st_, wt_ = [i for i, x in enumerate(k_) if x == "Start"], [i for i, x in enumerate(k_) if x == "WaitDone"]
+        tag = "ordered" if sy else "unordered"
+        rep.check(len(st_) == 1 and over_workers(lid_of(t_[st_[0]])), "R5.4", "start-all|" + tag, "Start for every element of myWorkers_", "workers are not started by a loop over myWorkers_", rn.loc())
+        rep.check(len(wt_) == 1 and over_workers(lid_of(t_[wt_[0]])) and bool(st_) and st_[-1] < wt_[0] and lid_of(t_[wt_[0]]) != lid_of(t_[st_[0]]), "R5.4", "join-all|" + tag,
+                  "WaitDone for every element of myWorkers_ after all Starts", "workers are not all joined after being started", rn.loc())
+        for nm in ("EndEvaluate", "Close"):
+            ix = [i for i, x in enumerate(k_) if x == nm and st_ and i > st_[0]]      # (a reader closed before any thread exists is not concerned)
+            if ix and wt_:
+                rep.check(all(i > wt_[-1] for i in ix), "R5.4", "after-join|%s|%s" % (nm, tag), "%s after the join loop" % nm, "%s can run before all workers are joined" % nm, rn.loc(t_[ix[0]]["node"]))
 
 
 def root_name(n):
